@@ -139,7 +139,12 @@ type Report struct {
 	BudgetExceeded bool
 	Panics         []PanicRec
 	HarnessError   string // not a verdict: unannotated block, misuse of simrt
-	ExternalWaits  int
+	// RealBlock: all goroutine stacks at the moment the released task was found blocked for good in a real
+	// (un-instrumented) blocking operation - even a minute of simulated time did not bring it back. HarnessError
+	// is set too; a harness that knows the operation (a call into an un-instrumented store, say) may read this
+	// as "the call never returned".
+	RealBlock     string
+	ExternalWaits int
 	SyncMisuse     []string
 }
 
@@ -271,8 +276,25 @@ func (s *Sim) loop() {
 		synctest.Wait()
 		s.mu.Lock()
 		if s.current != nil && s.current.st == stRunning {
-			// The released task is durably blocked somewhere the simulator does not know about.
-			s.rep.HarnessError = "task " + s.current.String() + " blocked in an un-annotated real blocking operation\n" + allStacks()
+			// The released task is durably blocked somewhere the simulator does not know about. It may only
+			// be waiting for simulated time (a back-off sleep inside a dependency): let up to a minute of
+			// it pass, in small steps, before giving up.
+			cur := s.current
+			s.mu.Unlock()
+			resumed := false
+			for i := 0; i < 6000 && !resumed; i++ {
+				time.Sleep(10 * time.Millisecond)
+				synctest.Wait()
+				s.mu.Lock()
+				resumed = cur.st != stRunning
+				s.mu.Unlock()
+			}
+			if resumed {
+				continue
+			}
+			s.mu.Lock()
+			s.rep.RealBlock = allStacks()
+			s.rep.HarnessError = "task " + cur.String() + " blocked in an un-annotated real blocking operation\n" + s.rep.RealBlock
 			s.mu.Unlock()
 			s.teardown()
 			return
